@@ -6,7 +6,7 @@ import copy
 
 from . import core, engine_p, monitors, workload, world
 
-SOLVER_FAULTS = ["exec", "status:-1", "status:0", "status:-2", "status:-3", "slow"]
+SOLVER_FAULTS = ["exec", "status:-1", "status:0", "status:-2", "status:-3", "slow", "iterate:-1", "iterate:0", "iterate:-1"]
 
 BASE_OPTIONS = {
     "scale": "country", "scenario": "no_resilient_foods", "seasonality": "country", "grasses": "baseline",
@@ -60,7 +60,7 @@ def generate(seed, prop, h, tier, jobs=(2, 3), vertex_p=0.4, fault_p=0.25, fault
         elif seam == "write":
             faults[str(ji)] = [{"seam": "write", "at": fr.randrange(3), "kind": fr.pick(["enospc", "eio", "eacces", "short"]), "k": fr.randrange(600)}]
         elif seam == "read":
-            faults[str(ji)] = [{"seam": "read", "at": fr.randrange(15), "kind": fr.pick(["enoent", "eio", "parse"])}]
+            faults[str(ji)] = [{"seam": "read", "at": fr.randrange(15), "kind": fr.pick(["enoent", "eio", "parse", "truncated"])}]
         elif seam == "clock":
             faults[str(ji)] = [{"seam": "clock", "at": fr.randrange(18), "kind": "jump",
                                 "seconds": fr.pick([-86400 * 400, -3600, 59, 3600, 86400 * 31])}]
@@ -99,6 +99,11 @@ def execute(spec, prop, monitor, nontrivial_fn, end_of_history=None, capture=Tru
                         probes[key] = probes.get(key, 0) + 1
                     continue
                 sim_months += job["options"]["NMONTHS"] * max(1, len(t.herds))
+                if fl and any(f.get("kind") == "truncated" for f in fl):
+                    # a silently torn table read may legitimately make THIS job's numbers wrong (the repo cannot
+                    # detect it); it yields no verdict - the jobs after it are judged as usual
+                    probes["faulted_job_without_verdict"] = probes.get("faulted_job_without_verdict", 0) + 1
+                    continue
                 V = monitors.Verdicts(prop, {"iso3": job["iso3"]})
                 monitor(t, V)
                 evaluations += 1
